@@ -98,7 +98,7 @@ def run(ctx):
                 ntrunc += 1
             if img is not None and wr is not None:
                 g = img["geo"][0]
-                ctx.nontrivial("%s|%s|%s|%s|%s|%s|%s|%s|%s" % (e if e != "Trunc" else "Trunc%d" % rec["len"], img["kind"], img["fmt"], wr["type"], wr["bo"],
+                ctx.nontrivial("%s|%s|%s|%s|%s|%s|%s|%s|%s" % (e if e != "Trunc" else "Trunc%d/%d" % (rec.get("file", 1), rec["len"]), img["kind"], img["fmt"], wr["type"], wr["bo"],
                                                              "auto" if wr["scaleM"] == 0 else wr["scaleE"] - img["vexp"], img["dist"], img["vexp"], g["size"]))
         if at is not None or not ok:
             ctx.violation("trace not consumed (line %s)" % at, p)
